@@ -905,16 +905,19 @@ ERR_CLASS = {-1: 0, -2: 1, -3: 2, -4: 3, -5: 4, -6: 5, -7: 6, -8: 7, -9: 8, -10:
 # libusb_transfer_status -> class of the error poll returns (0 = completed)
 STATUS_CLASS = {1: 13, 3: 6, 4: 8, 5: 3, 6: 7}
 STUCK = 1000000
-SUBMIT, POLL, PENDING, CANCEL, PDROP, PNEW, EMPTY = 1, 2, 3, 4, 5, 6, 7
+SUBMIT, POLL, PENDING, CANCEL, PDROP, PNEW, EMPTY, ARM = 1, 2, 3, 4, 5, 6, 7, 9
 
 
-def pool_case(plan, ops, note=""):
-    """plan: [('r', code) | ('a', status, len, delay)] per libusb_submit_transfer call; ops: [(op, arg)]"""
+def pool_case(plan, ops, note="", evs=()):
+    """plan: [('r', code) | ('a', status, len, delay[, cancellation latency])] per libusb_submit_transfer call;
+    evs: return code of each libusb_handle_events_locked call in turn; ops: [(op, arg)]"""
+    plan = [e if e[0] == "r" or len(e) == 5 else tuple(e) + (0,) for e in plan]
     t = [len(plan)]
     for e in plan:
-        t += [0, e[1]] if e[0] == "r" else [1, e[1], e[2], e[3]]
+        t += [0, e[1]] if e[0] == "r" else [1, e[1], e[2], e[3], e[4]]
+    t += [len(evs)] + list(evs)
     t += [len(ops)] + [v for o in ops for v in o]
-    return Case("pool", t, meta=dict(plan=list(plan), ops=list(ops), note=note, fam="pool"))
+    return Case("pool2", t, meta=dict(plan=list(plan), evs=list(evs), ops=list(ops), note=note, fam="pool"))
 
 
 def pool_boundary_cases():
@@ -945,43 +948,112 @@ def pool_boundary_cases():
                             note="drop with transfers in flight (front due after %d polls) and one refused" % d))
     cs.append(pool_case([], [(PENDING, 0), (EMPTY, 0), (CANCEL, 0), (PDROP, 0), (PNEW, 0), (EMPTY, 0)], note="empty pool"))
     cs.append(pool_case([("r", -4)] * 6, [(SUBMIT, 8), (PENDING, 0)] * 6 + [(PDROP, 0)], note="every submission refused"))
+    return cs + pool_cleanup_cases()
+
+
+def pool_cleanup_cases():
+    """The clean-up of a non-empty pool (Drop: cancel_all, then poll until empty) with faults at every point of it:
+    event handling that fails (INTERRUPTED = a signal; the other libusb codes) at each position, cancellations that
+    take 1..3 further event-handling rounds on the first / the last / every abandoned transfer, both together;
+    the pool is left non-empty by a mid-frame fault (an error completion or a time-out in the middle of a frame's
+    transfers) or by an idle time-out (the leader never arrives)."""
+    cs = []
+    INTR = -10
+    # (what, completions of the 5 transfers of a frame [None = never], polls before the drop, transfers abandoned)
+    scenarios = [
+        ("mid-frame fault (transfer 3 of 5 stalls; 2 abandoned)", [0, 0, 4, None, None], 3, 2),
+        ("mid-frame time-out (transfer 3 of 5 never arrives; 3 abandoned)", [0, 0, None, None, None], 3, 3),
+        ("idle time-out (no leader; 5 abandoned)", [None] * 5, 1, 5),
+        ("single transfer abandoned", [None], 1, 1),
+    ]
+    lats = [("no cancellation latency", lambda i, n: 0)]
+    for k in (1, 2, 3):
+        lats += [("cancellation of the first abandoned transfer takes %d rounds" % k, lambda i, n, k=k: k if i == 0 else 0),
+                 ("cancellation of the last abandoned transfer takes %d rounds" % k, lambda i, n, k=k: k if i == n - 1 else 0),
+                 ("every cancellation takes %d rounds" % k, lambda i, n, k=k: k)]
+    fails = [("", [])]
+    for j in range(6):
+        fails.append(("event handling interrupted at call %d of the clean-up" % j, [0] * j + [INTR]))
+    fails += [("event handling interrupted twice", [INTR, INTR]), ("event handling interrupted at calls 0, 2, 3", [INTR, 0, INTR, INTR]),
+              ("event handling reports a time-out (-7) then is interrupted", [-7, INTR])]
+    for what, comp, npoll, nab in scenarios:
+        n = len(comp)
+        for lwhat, lat in lats:
+            plan = []
+            for i, st in enumerate(comp):
+                ab = i - (n - nab)
+                plan.append(("a", st or 0, 8 + i, STUCK if st is None else 0, lat(ab, nab) if ab >= 0 else 0))
+            for fwhat, codes in fails:
+                ops = [(SUBMIT, 16)] * n + [(POLL, 10)] * npoll + [(PENDING, 0)] + [(ARM, c) for c in codes]
+                ops += [(PDROP, 0), (PNEW, 0), (SUBMIT, 8), (POLL, 10), (EMPTY, 0)]
+                cs.append(pool_case(plan, ops, note="clean-up after %s; %s%s" % (what, lwhat, "; " + fwhat if fwhat else "")))
+    # every libusb error code as the result of the first event-handling call of the clean-up, and of a poll
+    for code in REFUSE_CODES:
+        for what, comp, npoll, nab in scenarios[1:]:
+            plan = [("a", st or 0, 8, STUCK if st is None else 0, 0) for st in comp]
+            cs.append(pool_case(plan, [(SUBMIT, 16)] * len(comp) + [(POLL, 10)] * npoll + [(ARM, code), (PDROP, 0)],
+                                note="clean-up after %s; event handling fails with %d" % (what, code)))
+        cs.append(pool_case([("a", 0, 8, 0, 0)] * 2, [(SUBMIT, 16)] * 2 + [(ARM, code)] + [(POLL, 10), (PENDING, 0)] * 3,
+                            note="event handling fails with %d in a poll: nothing is reaped, the next polls return both transfers" % code))
+    # explicit cancel_all, polls that wait for slow cancellations, then the drop; a poll with a zero time-out
+    for k in (1, 2, 3):
+        plan = [("a", 0, 8, STUCK, k), ("a", 0, 9, STUCK, 0), ("a", 0, 10, STUCK, k)]
+        cs.append(pool_case(plan, [(SUBMIT, 16)] * 3 + [(CANCEL, 0)] + [(POLL, 10), (PENDING, 0)] * (k + 4) + [(EMPTY, 0)],
+                            note="cancel_all, cancellations of the first and last transfer take %d rounds, polled to the end" % k))
+        cs.append(pool_case(plan, [(SUBMIT, 16)] * 3 + [(CANCEL, 0), (POLL, 10), (ARM, INTR), (PDROP, 0)],
+                            note="cancel_all, one poll, then the drop with an interrupted event handling (latency %d)" % k))
+    cs.append(pool_case([("a", 0, 8, 0, 0)], [(SUBMIT, 16), (POLL, 0), (PENDING, 0), (POLL, 10), (PENDING, 0)],
+                        note="a poll with a zero time-out does not handle events"))
     return cs
 
 
 def pool_random_case(rng):
     plan = []
+    slow = rng.chance(1, 2)
     for _ in range(rng.range(0, 12)):
         if rng.chance(1, 5):
             plan.append(("r", rng.choice(REFUSE_CODES)))
         else:
-            plan.append(("a", rng.choice([0, 0, 0, 0, 1, 4, 5, 6]), rng.below(40), rng.choice([0, 0, 0, 1, 2, STUCK])))
+            plan.append(("a", rng.choice([0, 0, 0, 0, 1, 4, 5, 6]), rng.below(40), rng.choice([0, 0, 0, 1, 2, STUCK]),
+                         rng.choice([0, 0, 1, 2, 3, 7]) if slow else 0))
+    evs = []
+    if rng.chance(1, 2):
+        for _ in range(rng.range(0, 8)):
+            evs.append(0 if rng.chance(2, 3) else rng.choice([-10, -10, -10] + REFUSE_CODES))
     ops = []
     for _ in range(rng.range(1, 24)):
-        k = rng.below(12)
+        k = rng.below(13)
         if k < 5:
             ops.append((SUBMIT, rng.range(0, 32)))
         elif k < 8:
-            ops.append((POLL, 10))
+            ops.append((POLL, 10 if rng.chance(9, 10) else 0))
         elif k == 8:
             ops.append((PENDING, 0))
         elif k == 9:
             ops.append((CANCEL, 0))
         elif k == 10:
             ops += [(PDROP, 0), (PNEW, 0)] if rng.chance(2, 3) else [(PDROP, 0)]
+        elif k == 11:
+            ops += [(ARM, 0 if rng.chance(1, 3) else rng.choice([-10, -10] + REFUSE_CODES)) for _ in range(rng.range(1, 3))]
         else:
             ops.append((EMPTY, 0))
-    return pool_case(plan, ops, note="random")
+    return pool_case(plan, ops, note="random", evs=evs)
 
 
 def pool_predicate(c, out):
-    """The property on the output of the real AsyncPool alone: operations return (no wedge), a refused
-    submission is reported with its error and leaves the pool as it was, polls return the completions
-    of the accepted transfers in submission order with the device's data in the right buffer, a
-    time-out leaves the transfer pending, and after a drop nothing is in flight."""
+    """The property on the output of the real AsyncPool alone (the harness's own observations: what each call
+    returned, pending() after every poll, the fake libusb's ledger): operations return (no wedge); a refused
+    submission is reported with its error and leaves the pool as it was; a poll either returns the completion
+    of the OLDEST accepted transfer not yet returned (with the device's data in the right buffer) and removes
+    exactly it, or fails (time-out, event-handling error) and leaves `pending` as it was; and after a drop no
+    transfer is in flight and none was freed while libusb still had it, however the clean-up was disturbed."""
     if out in ([3], [4]) or out is None:
         return ("the harness hung or died: an AsyncPool operation (poll / drop) never returned - "
-                "it waits for a transfer libusb never accepted: %r" % (out,))
+                "it waits for a transfer libusb never accepted (or that was completed long ago): %r" % (out,))
     plan = list(c.meta["plan"])
+    # classes an event-handling failure can be reported as
+    evcodes = set(v for v in c.meta["evs"] if v != 0) | set(a for o, a in c.meta["ops"] if o == ARM and a != 0)
+    evclasses = set(ERR_CLASS[v] for v in evcodes)
     p = 0
     inpool = []          # accepted and not reaped, in submission order: [status, len, due epoch, cancel requested]
     have_pool = True
@@ -990,7 +1062,7 @@ def pool_predicate(c, out):
         if op == SUBMIT:
             if not have_pool:
                 continue
-            e = plan.pop(0) if plan else ("a", 0, arg, 0)
+            e = plan.pop(0) if plan else ("a", 0, arg, 0, 0)
             if out[p] == 2:
                 return "submit panicked"
             if e[0] == "r":
@@ -1017,24 +1089,32 @@ def pool_predicate(c, out):
             epoch += 1
             st, ln, due, canc = inpool[0]
             if out[p] == 0:
+                pend = out[p + 3]
+                if pend != len(inpool) - 1:
+                    return "poll returned Ok and pending() went from %d to %d" % (len(inpool), pend)
                 inpool.pop(0)
                 if out[p + 1] != ln or out[p + 2] != 1:
                     return "poll returned %d bytes (data in the front buffer: %s), the next transfer in submission order delivered %d" % (
                         out[p + 1], "ok" if out[p + 2] == 1 else "wrong", ln)
                 if st != 0:
                     return "poll returned Ok for a transfer that completed with status %d" % st
-                p += 3
+                p += 4
             else:
-                cls = out[p + 1]
-                if cls != 6:
+                cls, pend = out[p + 1], out[p + 2]
+                if pend == len(inpool) - 1:
+                    # the front transfer was reaped: the error is its completion (CANCELLED is reported as a time-out)
                     inpool.pop(0)
-                    if STATUS_CLASS.get(st) != cls:
-                        return "poll returned error class %d, the next transfer in submission order completed with status %d" % (cls, st)
-                elif canc:
-                    inpool.pop(0)      # CANCELLED is reported as a time-out and the transfer is reaped
-                elif due < epoch:
-                    return "poll timed out although the device had completed the front transfer"
-                p += 2
+                    if not (STATUS_CLASS.get(st) == cls or (canc and cls == 6)):
+                        return "poll returned error class %d and reaped the next transfer in submission order, which completed with status %d" % (cls, st)
+                elif pend == len(inpool):
+                    # nothing reaped: a time-out, or event handling failed
+                    if cls != 6 and cls not in evclasses:
+                        return "poll returned error class %d without reaping a transfer; event handling never fails that way here" % cls
+                    if cls == 6 and not evcodes and not canc and due < epoch and arg > 0:
+                        return "poll timed out although the device had completed the front transfer"
+                else:
+                    return "a failing poll changed pending() from %d to %d: a transfer was lost" % (len(inpool), pend)
+                p += 3
         elif op == PENDING:
             v = out[p]
             p += 1
@@ -1051,15 +1131,18 @@ def pool_predicate(c, out):
                     t[3] = True
         elif op == PDROP:
             if have_pool:
+                if out[p] == 2:
+                    return "the drop of the pool panicked"
                 if out[p:p + 2] != [0, 0]:
-                    return "after the drop of the pool %d transfers are in flight, %d were freed while in flight" % (out[p], out[p + 1])
-                p += 2
+                    return ("after the drop of the pool (%d transfers pending when it began) %d transfers are in flight, %d were freed "
+                            "while libusb still had them in flight (the completion flag and the buffer go with them)" % (len(inpool), out[p], out[p + 1]))
+                p += 3
                 have_pool, inpool = False, []
         elif op == PNEW:
             have_pool = True
     if out[p] != -9:
         return "output not understood at %d: %r" % (p, _clip(out))
-    calls, acc, ref, comp, nf, infl, freed = out[p + 1:p + 8]
+    calls, acc, ref, comp, nf, infl, freed, evcalls = out[p + 1:p + 9]
     if infl or freed:
         return "at the end %d transfers are in flight, %d were freed while in flight" % (infl, freed)
     if calls != acc + ref:
@@ -1074,14 +1157,17 @@ def run_pool_family(ck):
         ck.violations.append((path, True, "harness rust/h_async does not build against the repository: the AsyncPool correspondence cannot be established"))
         return
     rng = Rng(ck.seed + 77)
-    cases = pool_boundary_cases() + [pool_random_case(rng) for _ in range(400 if ck.tier == "quick" else 6000)]
+    cases = pool_boundary_cases() + [pool_random_case(rng) for _ in range(500 if ck.tier == "quick" else 8000)]
     impl = ck.run_impl(binary, [c.line for c in cases], jobs=NPROC, timeout=120 if ck.tier == "quick" else 1500)
-    model = ck.run_model_terms(["AsyncPool"], ["run_pool %s" % zlist(c.expanded()) for c in cases], per_eval=100)
+    model = ck.run_model_terms(["AsyncPool"], ["run_pool2 %s" % zlist(c.expanded()) for c in cases], per_eval=100)
     # a case the process did not survive is [4] on the implementation side and [3] (never returns) in the model
     ck.compare(cases, impl, model, pool_predicate, lambda c, o: bool(o) and len(o) > 12, None,
                correspondence="real AsyncPool (device/src/u3v/async_read.rs over the fake libusb) = model/AsyncPool.v on the same operation sequence",
                family="pool")
     ck.dist["pool_refused_submissions"] = sum(1 for c in cases for e in c.meta["plan"] if e[0] == "r")
+    ck.dist["pool_event_failures_scripted"] = sum(1 for c in cases for v in c.meta["evs"] if v) + sum(1 for c in cases for o, a in c.meta["ops"] if o == ARM and a)
+    ck.dist["pool_slow_cancellations_scripted"] = sum(1 for c in cases for e in c.meta["plan"] if e[0] == "a" and e[4])
+    ck.dist["pool_drops_of_a_nonempty_pool_disturbed"] = sum(1 for c in cases if "clean-up" in c.meta["note"])
 
 
 
@@ -1123,7 +1209,7 @@ def main():
         "rust/achan: the real async-channel behind a wrapper that performs and logs every operation under one lock (total order of the trace)",
         "std::sync::mpsc zero-capacity channel and async-channel are modelled (atomic FIFO / rendezvous operations), thread scheduling is sampled, not enumerated",
         "tools/c12.py labels_of_trace: placement of the unobservable cancellation check / send registration between observed events",
-        "rust/h_async/src/fake_usb.rs: in-memory libusb (enumeration always succeeds; scripted submit refusals / completions; event handling completes what is due or cancelled) under the REAL cameleon-device crate and rusb",
+        "rust/h_async/src/fake_usb.rs: in-memory libusb (enumeration always succeeds; scripted submit refusals / completions / cancellation latencies; every libusb_handle_events_locked call returns the next scripted code and, when 0, completes what is due or whose cancellation latency has run out) and a virtual CLOCK_MONOTONIC (clock_gettime defined in the harness binary; an idle event-handling call consumes its timeval) under the REAL cameleon-device crate and rusb",
     ]
     ck.prove()
     ck.phase("prove")
